@@ -79,6 +79,11 @@ package v2
 //@   property C30
 //@   callee *).AssertVerb
 //@   defines result ==> tokIsDelete()
+// "Applies to the request's container, object and operation": the one request whose object
+// cannot be among the session's objects is the PUT of a tombstone under a DELETE session (the
+// user cannot predict the tombstone's ID), and the auxiliary reads a node makes while deleting
+// (HEAD, SEARCH of the members) go with it; a DELETE request itself names the object to remove,
+// and that object has to be one of the session's.
 //@ func assertSessionRelation
 //@   property C30
 //@   ensures [bound_to_container_and_object_unless_delete] err == nil ==> tokContainerOK() && (tokIsDelete() || obj == zeroOID() || tokObjectOK())
@@ -101,6 +106,7 @@ package v2
 //@ func (Service).verifySessionTokenAgainstRequest
 //@   property C30
 //@   ensures [relation_and_verb] err == nil ==> sessionRelationOK() && sessionVerbOK()
+//@   ensures [delete_request_names_an_object_of_the_session] err == nil && reqVerb == session.VerbObjectDelete ==> reqObj == zeroOID() || tokObjectOK()
 //@   defines err == nil ==> requestRelationChecked()
 
 //@ func (Service).VerifySessionV1TokenMessage
